@@ -448,6 +448,12 @@ def rule_D5(src, lo, hi, enabled):
             out.append(("D5", toks[i - 1].start, toks[c].end, ""))
             i = c + 1
             continue
+        if t.kind == "ident" and t.text == "ok_or_else" and i > 0 and toks[i - 1].text == "." and i + 2 < n and toks[i + 1].text == "(" \
+                and toks[i + 2].text == "||":
+            c = match_close(toks, i + 1)
+            out.append(("D5", t.start, toks[c].end, "ok_or(VErr)"))
+            i = c + 1
+            continue
         i += 1
     return out
 
@@ -1117,6 +1123,10 @@ class Gen:
             else:
                 m = re.match(r"\[([^\]]+)\]\s*(.*)$", bs)
                 nm, txt = (m.group(1), m.group(2)) if m else (None, bs)
+                if nm is None and mode != "at":
+                    m = re.search(r"\s*//@\[([^\]]+)\]\s*$", bs)
+                    if m:
+                        nm, txt = m.group(1), bs[:m.start()]
                 if mode == "requires":
                     requires.append((nm, txt, vl))
                 elif mode == "ensures":
